@@ -3,7 +3,7 @@ from harness.common import Case, hx, tx_to_line, line_to_tx, toks_str, Fields
 from harness import gen as G
 from harness.props.c03 import code_script, nontrivial, TYPES
 
-KINDS = 'ms'
+KINDS = 'gms'
 RULE = ('transactions of 1..8 inputs and 0..8 outputs; every input index; script codes and output scripts of 0..70000 bytes incl. the '
         'CompactSize boundaries 252/253/255/256/65535/65536; amounts 0..2^63-1; six hash types (+ undefined ones for the model only); '
         'SINGLE with and without matching output. non-trivial: >= 2 inputs and (hash type != ALL or index > 0 or a script >= 253 bytes)')
@@ -37,11 +37,11 @@ def cases(ctx):
             for ht in hts:
                 ctx.count(f'ht-{ht:02x}')
                 if ht & 0x1f == 3: ctx.count('single-' + ('in' if i < len(tx.outputs) else 'out-of-range'))
-                yield Case(f'dig_v0 {line} {i} {toks_str(code)} {amt} {ht}', 'ms',
+                yield Case(f'dig_v0 {line} {i} {toks_str(code)} {amt} {ht}', 'gms' if len(line) < 20000 else 'ms',
                            nontrivial=nontrivial(tx, i, ht, [code] + [o.script_pubkey.script for o in tx.outputs]), tag='v0')
             if rng.random() < 0.1:
                 ht = rng.choice([0, 4, 0x41, 0x80, 0x84, 0x91, 0xc1, 0xff])
-                yield Case(f'dig_v0 {line} {i} {toks_str(code)} {amt} {ht}', 'm', nontrivial=True, tag='v0-undefined', domain=False)
+                yield Case(f'dig_v0 {line} {i} {toks_str(code)} {amt} {ht}', 'gm' if len(line) < 20000 else 'm', nontrivial=True, tag='v0-undefined', domain=False)
     for _ in range(ctx.n(50, 2500)):
         tx = G.gen_tx(rng, names, kind=rng.choice(['legacy', 'segwit']), max_in=4, max_out=4, min_out=1, big=False)
         muts = G.random_mutations(rng, tx, names)
